@@ -1,6 +1,8 @@
 package main
 
 import (
+	"runtime"
+	"syscall"
 	"bytes"
 	"context"
 	"crypto/sha256"
@@ -87,8 +89,17 @@ func runOne(ctx context.Context, sp solverSpec, file string, secs int, seed int)
 			args = append(args[:1], append([]string{fmt.Sprintf("--seed=%d", seed)}, args[1:]...)...)
 		}
 	}
+	// one solver process per slot: the slots are shared (file locks) by every check running on this
+	// machine, so wall-clock limits stay meaningful under load
+	release, ok := acquireSlot(ctx)
+	if !ok {
+		return answer{"timeout", sp.name, "cancelled while waiting for a solver slot", 0}
+	}
+	defer release()
+	pctx, pcancel := context.WithTimeout(ctx, time.Duration(secs+2)*time.Second)
+	defer pcancel()
 	start := time.Now()
-	cmd := exec.CommandContext(ctx, args[0], args[1:]...)
+	cmd := exec.CommandContext(pctx, args[0], args[1:]...)
 	var out bytes.Buffer
 	cmd.Stdout = &out
 	cmd.Stderr = &out
@@ -102,7 +113,7 @@ func runOne(ctx context.Context, sp solverSpec, file string, secs int, seed int)
 		st = "unsat"
 	case first == "sat":
 		st = "sat"
-	case strings.Contains(first, "timeout") || ctx.Err() != nil:
+	case strings.Contains(first, "timeout") || pctx.Err() != nil:
 		st = "timeout"
 	case strings.HasPrefix(first, "(error") || strings.Contains(text, "(error"):
 		st = "error"
@@ -115,6 +126,12 @@ func runOne(ctx context.Context, sp solverSpec, file string, secs int, seed int)
 
 // solve races the solvers on one query.
 func solve(query string, workDir string, tag string, timeoutSecs int, seed int) *Result {
+	return solveCtx(context.Background(), query, workDir, tag, timeoutSecs, seed)
+}
+
+// solveCtx is solve under a parent context: cancelling it stops the solvers (the result is then a timeout
+// that is not memoised).
+func solveCtx(parent context.Context, query string, workDir string, tag string, timeoutSecs int, seed int) *Result {
 	sum := sha256.Sum256([]byte(query))
 	key := fmt.Sprintf("%x", sum[:12])
 	if r, ok := memo.Load(key); ok {
@@ -125,7 +142,7 @@ func solve(query string, workDir string, tag string, timeoutSecs int, seed int) 
 	os.WriteFile(file, []byte(query), 0o644)
 	res := &Result{File: file, Size: len(query)}
 	start := time.Now()
-	ctx, cancel := context.WithTimeout(context.Background(), time.Duration(timeoutSecs+2)*time.Second)
+	ctx, cancel := context.WithCancel(parent)
 	defer cancel()
 	ch := make(chan answer, len(solvers))
 	launched := 0
@@ -204,8 +221,10 @@ func solve(query string, workDir string, tag string, timeoutSecs int, seed int) 
 		os.Remove(file)
 		res.File = ""
 	}
-	c := *res
-	memo.Store(key, &c)
+	if parent.Err() == nil {
+		c := *res
+		memo.Store(key, &c)
+	}
 	return res
 }
 
@@ -241,4 +260,31 @@ func dropUnusedQuantDefs(q string) string {
 		out = append(out, ln)
 	}
 	return strings.Join(out, "\n")
+}
+
+// ---- solver slots ---------------------------------------------------------------------------------
+
+var slotDir = "/verif/.work/slots"
+var slotCount = runtime.NumCPU() + 2
+
+// acquireSlot blocks until one of the machine-wide solver slots is free (or ctx is cancelled).
+func acquireSlot(ctx context.Context) (func(), bool) {
+	os.MkdirAll(slotDir, 0o755)
+	for {
+		for k := 0; k < slotCount; k++ {
+			f, err := os.OpenFile(filepath.Join(slotDir, fmt.Sprintf("slot-%d", k)), os.O_CREATE|os.O_RDWR, 0o644)
+			if err != nil {
+				continue
+			}
+			if syscall.Flock(int(f.Fd()), syscall.LOCK_EX|syscall.LOCK_NB) == nil {
+				return func() { syscall.Flock(int(f.Fd()), syscall.LOCK_UN); f.Close() }, true
+			}
+			f.Close()
+		}
+		select {
+		case <-ctx.Done():
+			return nil, false
+		case <-time.After(40 * time.Millisecond):
+		}
+	}
 }
